@@ -21,7 +21,7 @@ RULES = [
     (r"nelems\(\)%(n|size)\)?==0", "partitionDivides"),
     (r"^this->size\(\)%(count|size|2)==0$", "partitionDivides"),
     (r"^(offset_|nelems_)%stride_==0$", "extensionDivisible"),
-    (r"^\(stride_\*num\)%den==0$|^offset_==0$", "scalePrecondition"),
+    (r"^\(stride_\*num\)%den==0$|^offset_==0$|^\(offset_\*num\)%den==0$", "scalePrecondition"),
     (r"^(this->)?stride\(\)!=0$|^other\.stride\(\)!=0$|^stride_!=0$|^self\.stride_!=0$|^ilv\.size\(\)\|\|\(this->stride\(\)!=0\)$", "strideNonzero"),
     (r"extensions?\(\)==.*extensions?\(\)|extensions\(other\)==|extension\(\)==other\.extension\(\)|equal_extensions_if_", "equalExtents"),
     (r"size\(\)==other\.size\(\)|num_elements\(\)==other\.num_elements\(\)|values\.size\(\)\)?==|adl_size\(rng\)|std::distance\(first,last\)==this->size\(\)|new_layout\.num_elements\(\)==this->num_elements\(\)", "equalCount"),
